@@ -210,8 +210,12 @@ def run_shard(shard, tier, acc):
                 acc.fail(case, '-s %d raised %s' % (N, r.exc.strip().splitlines()[-1]), 'raise')
                 continue
             if mode == 'file':
-                with open(outp, encoding=spec.get('encoding', 'utf-8'), newline='') as f:
-                    lines = f.read().split('\n')
+                try:
+                    with open(outp, encoding=spec.get('encoding', 'utf-8'), newline='') as f:
+                        lines = f.read().split('\n')
+                except UnicodeError as e:
+                    acc.fail(case, 'the file written with -o is not text in the encoding of the ruleset (%s): %r' % (spec.get('encoding', 'utf-8'), e), 'file-encoding')
+                    continue
                 if lines and lines[-1] == '':
                     lines.pop()
                 if r.stdout:
